@@ -67,6 +67,18 @@ def min_year(assets):
     return (BASE_DATE + timedelta(days=d)).year
 
 
+def min_taxable_year(assets):
+    """calendar year of the earliest taxable event (the first year for which a schedule must name a method); 9999 if nothing is taxable"""
+    from datetime import timedelta  # pylint: disable=import-outside-toplevel
+
+    from .rp2api import BASE_DATE  # pylint: disable=import-outside-toplevel
+
+    earn = {"airdrop", "hardfork", "income", "interest", "mining", "staking", "wages"}
+    days = [(x["t"] + x["off"]) // 86400 for h in assets.values() for x in h
+            if x["cls"] == "out" or (x["cls"] == "in" and (x["type"] in earn or x["fee"] > 0)) or (x["cls"] == "intra" and x["fee"] > 0)]
+    return (BASE_DATE + timedelta(days=min(days))).year if days else 9999
+
+
 def sched_for(name, country, assets, rnd):
     """the schedule shapes of MC_Run, placed relative to the input's first year, with methods the country accepts"""
     y = min_year(assets)
@@ -218,7 +230,7 @@ def run_trace(res, shipped_cache):
     a = job["args"]
     rr = {"country": c, "method": a.get("method") or "", "lang": a.get("lang") or "", "from": a["from"] if a.get("from") is not None else NO_DAY,
           "to": a["to"] if a.get("to") is not None else NO_TO, "neg": bool(a.get("neg")), "sched": job.get("sched") or [], "prefix": a.get("prefix") or "",
-          "shipped": shipped_cache[c], "fault": job.get("fault", ""), "pre": sorted(job.get("pre_files", {})), "minyear": min_year(job["assets"])}
+          "shipped": shipped_cache[c], "fault": job.get("fault", ""), "pre": sorted(job.get("pre_files", {})), "minyear": min_taxable_year(job["assets"])}
     if tup["shape"] == "inverted" and job.get("fault", "") == "":
         pass
     tail = r.get("output_tail", "")
